@@ -77,8 +77,9 @@ type Machine struct {
 	TolerantInit     func(pkgPath string) bool
 	Stubs            map[string]*ssa.Function // full function name -> replacement (per-harness stubs of /repo functions)
 	NoopPkgs         func(pkgPath string) bool
-	DecideProfile map[string]int64
-	curFn        string
+	sched            *scheduler
+	DecideProfile    map[string]int64
+	curFn            string
 	jsonAppendString *ssa.Function
 	witnessed        map[string]bool
 }
@@ -107,6 +108,7 @@ func NewMachine(prog *ssa.Program, solver *Solver) *Machine {
 	registerIntrinsics(m)
 	registerModels(m)
 	registerCodecs(m)
+	registerSched(m)
 	return m
 }
 
@@ -605,7 +607,9 @@ func (m *Machine) visitInstr(fr *frame, instr ssa.Instruction) continuation {
 		fn, args := m.prepareCall(fr, &instr.Call)
 		fr.defers = &deferred{fn: fn, args: args, instr: instr, tail: fr.defers}
 	case *ssa.Go:
-		panic(unsupported("go statement (no scheduler in this build)"))
+		fn, args := m.prepareCall(fr, &instr.Call)
+		name := "go@" + fr.fn.Name()
+		m.spawn(fr, instr.Pos(), fn, args, name)
 	case *ssa.MakeChan:
 		fr.env[instr] = &Chan{cap: int(m.concretize(fr.get(instr.Size).(*Term)))}
 	case *ssa.Alloc:
